@@ -8,7 +8,11 @@ VERIF = os.path.dirname(os.path.dirname(os.path.abspath(__file__)))
 SCENARIOS = [
     (r'^levmar\.set_params\.(seq|par)\.(noStale|coherent)$', [['stale_after_failed_set_params']]),
     (r'^levmar\.set_params\.(seq|par)\.pre$', [['nonfinite_phi', 'inf'], ['nonfinite_phi', 'nan']]),
-    (r'^stats\.try_calculate\.(arith|pre|ok|underdetermined.*)$', [['underdetermined', '3', '2', '2'], ['underdetermined', '4', '2', '2']]),
+    (r'^stats\.try_calculate\.(arith|pre|ok|underdetermined.*)$', [['underdetermined', '3', '2', '2'], ['underdetermined', '4', '2', '2'], ['stats_sweep']]),
+    # algebraic obligations: a sweep of concrete problems against an independent oracle (a replay aid only: the failed
+    # obligation is the violation; the sweep supplies a concrete failing input when one of its configurations shows it)
+    (r'^(levmar\.(set_params|jacobian|residuals|builder|problem|copy_matrix_to_column)|util\.|cor\.c0[1-7]|cor\.c10|kani\.(copy_matrix|to_vector))', [['algebra_sweep']]),
+    (r'^(stats\.|cor\.c1[234]|levmar\.solver\.fit_with_statistics)', [['stats_sweep'], ['underdetermined', '5', '3', '2']]),
 ]
 
 
@@ -44,7 +48,7 @@ def run_scenarios(repo, scen):
         rep = False
         for argv in scen:
             try:
-                p = subprocess.run([exe] + argv, capture_output=True, text=True, timeout=20)
+                p = subprocess.run([exe] + argv, capture_output=True, text=True, timeout=60)
                 if p.returncode != 0:
                     outcome, detail, ok = 'panicked / aborted (exit %d)' % p.returncode, (p.stderr or '')[-600:], True
                 elif 'REPRODUCED:' in p.stdout and 'NOT-REPRODUCED' not in p.stdout:
@@ -52,7 +56,7 @@ def run_scenarios(repo, scen):
                 else:
                     outcome, detail, ok = 'not reproduced', p.stdout.strip()[-600:], False
             except subprocess.TimeoutExpired:
-                outcome, detail, ok = 'did not return within 20 s (killed by the watchdog)', '', True
+                outcome, detail, ok = 'did not return within 60 s (killed by the watchdog)', '', True
             out.append(dict(scenario=' '.join(argv), profile='debug', outcome=outcome, detail=detail, reproduced=ok))
             rep = rep or ok
         return out, rep
@@ -79,7 +83,7 @@ def make_replay(pid, f, repo, src, ur):
         rep['failing_input_reproduced'] = True
     scen = None
     for pat, sc in SCENARIOS:
-        if re.match(pat, f['clause']):
+        if scen is None and re.match(pat, f['clause']):
             scen = sc
     if scen and os.environ.get('VP_NO_REPLAY') != '1':
         try:
